@@ -33,7 +33,6 @@ from typing import Any, Dict, List, Optional, Sequence, Tuple
 
 from hypothesis import strategies as st
 
-from . import ref
 from .model import Alias, Const, Enum, Field, File, Import, Message, TArray, TBase, TRef, Unit, enclosing_messages, file_of, set_parents
 
 HOT_TYPES = ["Tiger", "Panda", "Koala"]
